@@ -31,6 +31,7 @@ var (
 	ErrTxExpired       = errors.New("the 'expirationTime' field of transaction must be later than current time")
 	ErrTxExpiration    = errors.New("the 'expirationTime' field of transaction must not be later than 30 minutes")
 	ErrNegativeValue   = errors.New("the 'amount' field of transaction can't be negative")
+	ErrValueTooLarge   = errors.New("the 'amount' and 'gasPrice' fields of transaction can't be larger than 256 bits")
 	ErrTxChainID       = errors.New("the 'chainID' field of transaction is incorrect")
 	ErrBoxTx           = errors.New("the 'expirationTime' field of box transaction must be later than all sub transactions")
 	ErrVerifyBoxTx     = errors.New("box transaction cannot be in another box transaction")
